@@ -184,6 +184,46 @@ theorem localName_attr (name : Str) (hn : nameOk name = true) (a : AttrList) (ha
       simp only [this, Bool.false_eq_true, if_false]
       exact ih hr
 
+theorem qname_attr (u name : Str) (hq : qnOk ⟨u, name⟩) (a : AttrList) (ha : attrsOk a) :
+    a.filter (fun p => p.1.ns == u && p.1.loc == name) =
+      (match attrGetQ ⟨u, name⟩ a with
+       | some v => [((⟨u, name⟩ : QName), v)]
+       | Option.none => []) := by
+  induction a with
+  | nil => simp [attrGetQ]
+  | cons p r ih =>
+    obtain ⟨q, v⟩ := p
+    have hr : attrsOk r := by
+      refine ⟨(List.nodup_cons.mp (by simpa using ha.1)).2, fun p hp => ha.2 p (List.mem_cons_of_mem _ hp)⟩
+    have hqq : qnOk q := ha.2 (q, v) List.mem_cons_self
+    have hnot : q ∉ r.map Prod.fst := (List.nodup_cons.mp (by simpa using ha.1)).1
+    simp only [attrGetQ]
+    by_cases ht : q.text = (⟨u, name⟩ : QName).text
+    · have heq : q = ⟨u, name⟩ := (text_inj hqq hq).mp ht
+      subst heq
+      simp only [if_true, List.filter_cons, beq_self_eq_true, Bool.and_self]
+      have : r.filter (fun p => p.1.ns == u && p.1.loc == name) = [] := by
+        rw [List.filter_eq_nil_iff]
+        intro x hx hc
+        simp only [Bool.and_eq_true, beq_iff_eq] at hc
+        apply hnot
+        rw [List.mem_map]
+        refine ⟨x, hx, ?_⟩
+        obtain ⟨⟨xn, xl⟩, xv⟩ := x
+        simp_all
+      rw [this]
+    · simp only [ht, if_false, List.filter_cons]
+      have : (q.ns == u && q.loc == name) = false := by
+        cases hc : (q.ns == u && q.loc == name) with
+        | false => rfl
+        | true =>
+          simp only [Bool.and_eq_true, beq_iff_eq] at hc
+          obtain ⟨qn, ql⟩ := q
+          simp only at hc
+          exact absurd (by rw [hc.1, hc.2]) ht
+      simp only [this, Bool.false_eq_true, if_false]
+      exact ih hr
+
 /-! ## String functions -/
 
 theorem indexOf_eq (c : Char) (fr : Str) (k : Nat) :
@@ -362,14 +402,16 @@ def nodeOk : Node → Prop
   | .leaf e => e.isStartEnd = false
 
 def NodeTest.isAttrName : NodeTest → Bool
-  | .principal true | .qprincipal true _ | .localName true _ => true
+  | .principal true | .qprincipal true _ | .localName true _ | .qname true _ _ => true
   | _ => false
 
 /-- prefixes are bound, names are plain -/
 def NodeTest.wf (ns : NsMap) : NodeTest → Bool
   | .qprincipal _ pfx => (lookup pfx ns).isSome
   | .localName _ name => nameOk name
-  | .qname _ pfx name => (lookup pfx ns).isSome && nameOk name
+  | .qname _ pfx name => (match lookup pfx ns with
+      | some u => !(List.elem '}' u)
+      | Option.none => false) && nameOk name
   | _ => true
 
 /-- the typed fragment of predicate expressions (static part): attribute lookups, literals,
@@ -446,6 +488,20 @@ theorem attrTest_toX (t : NodeTest) (ns : NsMap) (n : Node) (hn : nodeOk n)
       simp only [nodeEvent, NodeTest.apply, attrNodes, if_true]
       rw [localName_attr name hwf a hn]
       cases attrGetText name a <;> simp [Val.toX]
+    | qname attr pfx name =>
+      cases attr <;> simp [NodeTest.isAttrName] at ht
+      simp only [NodeTest.wf, Bool.and_eq_true] at hwf
+      obtain ⟨hw1, hw2⟩ := hwf
+      cases hu : lookup pfx ns with
+      | none => simp [hu] at hw1
+      | some u =>
+        simp only [hu, Bool.not_eq_true', List.elem_eq_mem, decide_eq_false_iff_not] at hw1
+        simp only [nodeEvent, NodeTest.apply, nsOf, hu, Option.getD_some, attrNodes, if_true]
+        have hf : (a.filter fun p => some p.1.ns == some u && p.1.loc == name)
+            = a.filter fun p => p.1.ns == u && p.1.loc == name := by
+          congr 1
+        rw [hf, qname_attr u name ⟨hw2, hw1⟩ a hn]
+        cases attrGetQ ⟨u, name⟩ a <;> simp [Val.toX]
     | _ => simp [NodeTest.isAttrName] at ht
 
 theorem fn0_toX (f : Fn0) (n : Node) (hn : nodeOk n) :
